@@ -98,7 +98,10 @@ func VerifC18Config() {
 	doc := c18Docs[verifrt.Choice(len(c18Docs))]
 	if doc != "" {
 		must(os.MkdirAll(filepath.Dir(path), 0o700))
-		must(os.WriteFile(path, []byte(doc), 0o600))
+		// the existing file may have been written by hand with a wider mode
+		mode := []os.FileMode{0o600, 0o644}[verifrt.Choice(2)]
+		must(os.WriteFile(path, []byte(doc), mode))
+		must(os.Chmod(path, mode))
 	}
 	cfg, err := Load(path)
 	if err != nil {
